@@ -38,6 +38,7 @@ type Config struct {
 	Arm     []string `json:"arm,omitempty"` // yield sites at which arriving goroutines are parked
 	ChanCap int      `json:"chan_cap"`
 	NoTS    bool     `json:"no_ts"`
+	Stall   bool     `json:"stall,omitempty"` // nobody takes entered lines off the input channel until a "drain" action (no shell attached)
 	Steps   int      `json:"steps"`
 }
 
@@ -120,14 +121,17 @@ type sim struct {
 	expectIch  []string
 	sentEOF    bool
 	lastAct    Action
+	stalled    bool
+	suppressed []tok // shell output known to have been suppressed
 }
 
 type tok struct {
-	text    string
-	at      int64
-	step    int
-	expect  string // shown | hidden | unjudged
-	checked bool
+	text         string
+	at           int64
+	step         int
+	expect       string // shown | hidden | unjudged
+	checked      bool
+	exactChecked bool
 }
 
 // key is the part of a token that survives the terminal's newline handling.
@@ -348,6 +352,7 @@ func (s *sim) main() {
 		s.doRet, s.doErr = true, err
 		s.mu.Unlock()
 	}()
+	s.stalled = s.cfg.Stall
 	s.settle()
 	s.flushObs("{start}")
 	max := s.cfg.Steps
@@ -377,6 +382,7 @@ func (s *sim) main() {
 	}
 	// closing phase: release everything, let the terminal finish, end of input
 	s.step++
+	s.stalled = false
 	if !s.invalid && s.harnessErr == "" && len(s.found) == 0 {
 		s.disarm()
 		s.settle()
@@ -423,7 +429,7 @@ func (s *sim) settle() {
 	for i := 0; i < 100000; i++ {
 		synctest.Wait()
 		got := false
-		for {
+		for !s.stalled {
 			select {
 			case l := <-s.ich:
 				s.got = append(s.got, l)
@@ -580,6 +586,9 @@ func (s *sim) precond(a Action) error {
 			return fmt.Errorf("output would wait for a lock a parked goroutine holds")
 		}
 	case "key":
+		if s.stalled && len(s.expectIch)-len(s.got) > cap(s.ich) && bytes.Contains(a.B, []byte{0x0f}) {
+			return fmt.Errorf("the line reader is blocked on the full input channel: Ctrl+O would be handled at an unknown later time")
+		}
 		if h.t {
 			return fmt.Errorf("the line reader may be the goroutine parked in the Ctrl+O callback: typed keys would queue behind it")
 		}
@@ -602,6 +611,10 @@ func (s *sim) precond(a Action) error {
 			return fmt.Errorf("a timer would wait for a lock a parked goroutine holds")
 		}
 	case "disarm":
+	case "drain":
+		if !s.stalled {
+			return fmt.Errorf("input channel is not stalled")
+		}
 	case "eof":
 		if len(s.parks) > 0 {
 			return fmt.Errorf("goroutines are parked")
@@ -694,6 +707,9 @@ func (s *sim) apply(a Action) {
 		s.releaseAll()
 	case "disarm":
 		s.disarm()
+	case "drain":
+		s.stalled = false
+		s.probes["input_channel_drained"]++
 	case "eof":
 		s.sentEOF = true
 		s.mu.Lock()
